@@ -47,11 +47,13 @@ macro_rules! shiftty {
     ($form:expr, $a:expr, $n:expr, $t:ty, $op:tt, $opa:tt) => {{
         let a = $a;
         let n = $n as $t;
-        match $form % 4 {
+        match $form % 6 {
             0 => cat(|| a $op n),
             1 => cat(|| &a $op n),
             2 => cat(|| a $op &n),
-            _ => cat(|| { let mut t = a; t $opa n; t }),
+            3 => cat(|| { let mut t = a; t $opa n; t }),
+            4 => cat(|| { let mut t = a; t $opa &n; t }),
+            _ => cat(|| &a $op &n),
         }
     }};
 }
@@ -100,6 +102,7 @@ fn do_bin<F: Fx>(op: &str, form: u64, x: W<F>, y: W<F>) -> Result<W<F>, bool> {
 fn do_shift<F: Fx>(op: &str, nt: usize, form: u64, x: W<F>, ai: i128) -> Result<W<F>, bool>
 where
     for<'a> &'a F: Shl<u32, Output = F> + Shr<u32, Output = F>,
+    F: ShlAssign<u32> + ShrAssign<u32>,
 {
     if op == "shl" { shiftall!(nt, form, x, ai, <<, <<=) } else { shiftall!(nt, form, x, ai, >>, >>=) }
 }
@@ -239,16 +242,21 @@ where
             }
             3 => {
                 let x = reg[a];
-                let nt = if script.is_some() { 2 } else { nt };           // scripted amounts are i32
+                // scripted amounts are i32 unless the script names a type index
+                let nt = if let Some(sc) = script { if sc[step].get("nt").is_some() { nt % 12 } else { 2 } } else { nt };
                 let (tn, ts, tw) = SHIFT_TY[nt];
                 // in the int-domain trace the amount must stay small
-                let amt_raw = if c.wr.big { numraw & mask(tw) } else { (numraw & mask(tw.min(16))) };
-                let amt = sval(amt_raw, ts && c.wr.big, if c.wr.big { tw } else { tw.min(16) });
+                // int-domain traces keep |amount| below 2^16 (the sign is kept for the signed amount types)
+                let amt = if c.wr.big { sval(numraw & mask(tw), ts, tw) } else {
+                    let v = (numraw as i64) % 65536;
+                    let v = if ts { v.clamp(-(1i64 << (tw - 1).min(16)), (1i64 << (tw - 1).min(16)) - 1) } else { v.rem_euclid(1i64 << tw.min(16)) };
+                    Num::i(v as i128)
+                };
                 let ai: i128 = if amt.neg { (amt.mag as i128).wrapping_neg() } else { amt.mag as i128 };
                 let r = do_shift::<F>(op, nt, form, x, ai);
                 if let Ok(v) = r { reg[d] = v; }
                 ev_head(c, op, d);
-                c.wr.raw(&format!(",\"a\":{},\"fm\":{},\"nt\":\"{}\",\"n\":", a + 1, form % 4, tn));
+                c.wr.raw(&format!(",\"a\":{},\"fm\":{},\"nt\":\"{}\",\"n\":", a + 1, form % 6, tn));
                 c.wr.num(amt);
                 c.wr.raw(",\"r\":");
                 c.wr.out1(&wout(r));
@@ -398,6 +406,21 @@ where
             let steps = vec![serde_json::json!({"op":"load","d":1,"rawv":{"raw": format!("{}", a)}}),
                              serde_json::json!({"op":*op,"d":2,"a":1,"fm":ui % 2})];
             program::<F>(c, &mut rng, Some(&steps));
+        }
+    }
+    // systematic shift programs: every amount type x every spelling x a few amounts (negative, beyond the width)
+    for op in ["shl", "shr"] {
+        for nt in 0..12u64 {
+            for fm in 0..6u64 {
+                for (ai, amt) in [-1i64, -3, 1, (l.w + 1) as i64, (l.w / 2) as i64].iter().enumerate() {
+                    // unsigned amount types cannot hold a negative amount
+                    if *amt < 0 && !SHIFT_TY[nt as usize].1 { continue; }
+                    let a = uvals[(nt as usize * 31 + fm as usize * 7 + ai * 3 + 5) % uvals.len()];
+                    let steps = vec![serde_json::json!({"op":"load","d":1,"rawv":{"raw": format!("{}", a)}}),
+                                     serde_json::json!({"op":op,"d":2,"a":1,"fm":fm,"nt":nt,"n":*amt})];
+                    program::<F>(c, &mut rng, Some(&steps));
+                }
+            }
         }
     }
     for op in BINOPS.iter().chain(INTOPS.iter()) {
